@@ -663,6 +663,45 @@ class Canon:
                     value=a[2]), s))
                 self.did("T11.setattr")
                 continue
+            # a search loop:  for x in ROWS: if C(x): S(x); break
+            #                 else: E           ->  if/elif chain
+            search = None
+            if (isinstance(s, ast.For) and isinstance(
+                    s.iter, (ast.Tuple, ast.List)) and
+                    0 < len(s.iter.elts) <= 12 and len(s.body) == 1 and
+                    isinstance(s.body[0], ast.If) and not s.body[0].orelse
+                    and s.body[0].body and isinstance(
+                        s.body[0].body[-1], ast.Break)):
+                inner = s.body[0]
+                others = [n for n in _walk_same_loop(inner.body[:-1])
+                          if isinstance(n, (ast.Break, ast.Continue))]
+                if not others:
+                    search = inner
+            if search is not None:
+                loop = ast.copy_location(ast.For(
+                    target=s.target, iter=s.iter,
+                    body=[ast.copy_location(ast.If(
+                        test=search.test, body=search.body[:-1] or
+                        [ast.Pass()], orelse=[]), search)],
+                    orelse=[]), s)
+                saved = list(out)
+                out = []
+                got = self._unroll([loop] + [ast.Pass()])
+                # the chain is valid only if the loop really was unrolled
+                unrolled_ifs = got[:-1]
+                out = saved
+                if unrolled_ifs and all(isinstance(x, ast.If)
+                                        for x in unrolled_ifs) and not any(
+                        isinstance(x, ast.For) for x in unrolled_ifs):
+                    chain_tail = list(s.orelse)
+                    for x in reversed(unrolled_ifs):
+                        x.orelse = chain_tail
+                        chain_tail = [x]
+                    out.extend(chain_tail)
+                    self.did("T11.search-loop")
+                    continue
+                out.append(s)
+                continue
             if not (isinstance(s, ast.For) and not s.orelse
                     and isinstance(s.iter, (ast.Tuple, ast.List))
                     and 0 < len(s.iter.elts) <= 12):
